@@ -578,6 +578,25 @@ func rulePoolUAR(p *Prog, r *Report, prop string) {
 					r.Bad("POOL-UAR", key, p.posStr(instrPos(nd.in)), "the object is released here and again by the deferred release at "+p.posStr(instrPos(d.in))+": the pool then hands one object to two callers")
 				}
 			}
+			// two deferred releases of one object: both run at exit. For a pointer-receiver method on a local variable the
+			// deferred call holds the variable's ADDRESS, so re-assigning the variable between the two defers does not
+			// separate them — both release whatever the variable holds at the end, the earlier value is never released
+			for i, d1 := range sites {
+				if !d1.deferred {
+					continue
+				}
+				for _, d2 := range sites[i+1:] {
+					if !d2.deferred || d2.in == d1.in || d1.field != d2.field || !sameObject(f, d1.base, d2.base) {
+						continue
+					}
+					b1, b2 := d1.in.Block(), d2.in.Block()
+					if !b1.Dominates(b2) && !b2.Dominates(b1) {
+						continue
+					}
+					key := fmt.Sprintf("%s | two deferred releases: %s", fnName(f), d1.what)
+					r.Bad("POOL-UAR", key, p.posStr(instrPos(d2.in)), "the release deferred here and the one deferred at "+p.posStr(instrPos(d1.in))+" act on the same object when the function returns (a deferred pointer-receiver call keeps the variable's address, not its value at that moment): it is handed to the pool twice, and two later calls share it")
+				}
+			}
 		}(f)
 		eachInstr(f, func(_ *ssa.BasicBlock, _ int, in ssa.Instruction) {
 			site, ok := in.(ssa.CallInstruction)
